@@ -226,4 +226,35 @@ theorem writeUtf8Chunk_total (st : Resync) (content : Bytes) :
           -- iteration 3: nothing left
           simp [writeLoop]
 
+/-! ### liveness for cuts on character boundaries -/
+
+/-- one write of well-formed UTF-8 with nothing buffered is passed through whole -/
+theorem writeUtf8Chunk_valid (p : Bytes) (h : validFrag p) :
+    writeUtf8Chunk Resync.new p = some ⟨if p.isEmpty then [] else [p], .ok Resync.new⟩ := by
+  unfold writeUtf8Chunk
+  rw [writeLoop]
+  by_cases he : p.isEmpty = true
+  · simp [he]
+  · have hs : utf8BytesToSlice Resync.new p = .ok (Resync.new, p, []) := by
+      simp only [utf8BytesToSlice, Resync.new, List.length_nil, gt_iff_lt, Nat.lt_irrefl, if_false,
+        sliceFresh]
+      have : (Utf8.scan p).fin = .done := h
+      rw [this]
+    simp only [he, Bool.false_eq_true, if_false, hs]
+    simp [writeLoop, he]
+
+theorem writeAll_valid_parts : ∀ (parts : List Bytes), (∀ p ∈ parts, validFrag p) →
+    writeAll Resync.new parts = some ⟨parts.filter (fun p => !p.isEmpty), .ok Resync.new⟩ := by
+  intro parts
+  induction parts with
+  | nil => intro _; rfl
+  | cons p ps ih =>
+    intro h
+    have h1 := writeUtf8Chunk_valid p (h p (by simp))
+    have h2 := ih (fun q hq => h q (by simp [hq]))
+    simp only [writeAll, h1, h2]
+    by_cases he : p.isEmpty = true
+    · simp [he]
+    · simp [he]
+
 end LolHtml.Enc
